@@ -3,6 +3,8 @@ import ImathVerif.Gen.C10Quat
 import ImathVerif.Gen.C10Algo
 import ImathVerif.Gen.C10Interp
 import ImathVerif.Lemmas.C10Lemmas
+import ImathVerif.Lemmas.C10Rot
+import ImathVerif.Gen.C10Rot
 import Mathlib.Tactic.Ring
 import Mathlib.Tactic.LinearCombination
 import Mathlib.Tactic.FinCases
@@ -10,6 +12,8 @@ import Mathlib.Tactic.SplitIfs
 import Mathlib.Tactic.FieldSimp
 import Mathlib.Tactic.NormNum
 import Mathlib.Analysis.SpecialFunctions.Trigonometric.Inverse
+import Mathlib.Analysis.SpecialFunctions.Trigonometric.Bounds
+import Mathlib.Analysis.SpecialFunctions.Complex.Arg
 /-!
 # C10 — quaternion, matrix and axis-angle rotations are mutually consistent
 
@@ -277,7 +281,10 @@ theorem Quat_normalize_unit {α : Type} [Field α] [LinearOrder α] [IsStrictOrd
       ⟨q.r / sqrt (normSq q), ⟨q.v.x / sqrt (normSq q), q.v.y / sqrt (normSq q), q.v.z / sqrt (normSq q)⟩⟩ := by
     simp only [Gen.C10.Quat.normalize]
     rw [if_neg (by simpa [normSq] using hl)]
-    rfl
+    first
+      | rfl
+      | (simp only [normSq] at hl ⊢; congr 1; · field_simp
+         congr 1 <;> field_simp)
   refine ⟨e, ?_⟩
   rw [e]
   generalize sqrt (normSq q) = l at hs hl
@@ -639,5 +646,224 @@ theorem spline_keys {α : Type} [Field α] [LinearOrder α] [IsStrictOrderedRing
   exact squad_keys teps sqrt sin atan2 hsqrt q1 _ _ q2 h1 h2
     (intermediate_unit tmin tmax sqrt sin cos acos hsqrt q0 q1 q2)
     (intermediate_unit tmin tmax sqrt sin cos acos hsqrt q1 q2 q3) h12 hab h1a h2b
+
+/-! ## `exp (log q) = q`, `setAxisAngle (axis q, angle q) = q` (over ℝ, with Real.arccos / sin / cos / sqrt / arg)
+
+`log` protects the division `theta / sin theta` by the guard `|sin theta| < 1 ∧ |theta| ≥ max * |sin theta|`
+(then the factor is 1): that is the region "real part close to -1" of the property, stated here exactly as
+`arccos r < max * sin (arccos r)`.  For float (max ≈ 3.4e38) it excludes only `pi - theta ≲ 1e-38`; all the
+accuracy loss near r = -1 in floating point is a matter of rounding and is MEASURED (c10_residue: exp-log). -/
+
+theorem exp_log (tmin tmax : ℝ) (htmax : 1 ≤ tmax) (q : Quat ℝ) (hq : UnitQ q)
+    (hguard : q.r = 1 ∨ (-1 < q.r ∧ Real.arccos q.r < tmax * Real.sin (Real.arccos q.r))) :
+    Gen.C10.Quat.exp tmin tmax Real.sqrt Real.sin Real.cos (Gen.C10.Quat.log tmax Real.sin Real.arccos q) = q := by
+  obtain ⟨r, ⟨x, y, z⟩⟩ := q
+  simp only [UnitQ, normSq] at hq
+  simp only at hguard
+  have hx2 := mul_self_nonneg x; have hy2 := mul_self_nonneg y; have hz2 := mul_self_nonneg z
+  have hr1 : r ≤ 1 := by nlinarith
+  have hsmin : smin r 1 = r := by
+    simp only [smin]; rw [if_neg (not_lt.mpr hr1)]
+  rcases hguard with h1 | ⟨hm1, hg⟩
+  · -- r = 1: v = 0, log q = 0, exp 0 = 1
+    subst h1
+    have hx : x = 0 := mul_self_eq_zero.mp (by linarith)
+    have hy : y = 0 := mul_self_eq_zero.mp (by linarith)
+    have hz : z = 0 := mul_self_eq_zero.mp (by linarith)
+    subst hx hy hz
+    have hlog : Gen.C10.Quat.log tmax Real.sin Real.arccos (⟨1, ⟨0, 0, 0⟩⟩ : Quat ℝ) = ⟨0, ⟨0, 0, 0⟩⟩ := by
+      simp only [Gen.C10.Quat.log, hsmin, Real.arccos_one, ↓reduceIte]
+    rw [hlog]
+    simp only [Gen.C10.Quat.exp, C08.V3_length_eq tmin real_sqrt_spec]
+    simp [sabs]
+  · have hθ0 : 0 < Real.arccos r := Real.arccos_pos.mpr (lt_of_le_of_ne hr1 (by
+      intro h; subst h
+      have hx : x = 0 := mul_self_eq_zero.mp (by linarith)
+      have hy : y = 0 := mul_self_eq_zero.mp (by linarith)
+      have hz : z = 0 := mul_self_eq_zero.mp (by linarith)
+      subst hx hy hz
+      simp at hg))
+    have hcos : Real.cos (Real.arccos r) = r := Real.cos_arccos hm1.le hr1
+    have hθpi : Real.arccos r < Real.pi := by
+      rcases lt_or_eq_of_le (Real.arccos_le_pi r) with h | h
+      · exact h
+      · exfalso; rw [Real.arccos_eq_pi] at h; linarith
+    have hs0 : 0 < Real.sin (Real.arccos r) := Real.sin_pos_of_pos_of_lt_pi hθ0 hθpi
+    have hs2 : Real.sin (Real.arccos r) * Real.sin (Real.arccos r) = x * x + y * y + z * z := by
+      have := Real.sin_sq_add_cos_sq (Real.arccos r)
+      rw [hcos] at this; nlinarith
+    have hslt : Real.sin (Real.arccos r) < Real.arccos r := Real.sin_lt hθ0
+    generalize hθ : Real.arccos r = θ at *
+    generalize hs : Real.sin θ = s at *
+    have hlog : Gen.C10.Quat.log tmax Real.sin Real.arccos (⟨r, ⟨x, y, z⟩⟩ : Quat ℝ) =
+        ⟨0, ⟨x * (θ / s), y * (θ / s), z * (θ / s)⟩⟩ := by
+      simp only [Gen.C10.Quat.log, hsmin, hθ, hs, sabs_of_nonneg hs0.le, sabs_of_nonneg hθ0.le,
+        hθ0.ne', ↓reduceIte, not_le.mpr hg]
+      split_ifs <;> rfl
+    rw [hlog]
+    have hlen : Real.sqrt (x * (θ / s) * (x * (θ / s)) + y * (θ / s) * (y * (θ / s)) + z * (θ / s) * (z * (θ / s))) = θ := by
+      have : x * (θ / s) * (x * (θ / s)) + y * (θ / s) * (y * (θ / s)) + z * (θ / s) * (z * (θ / s)) = θ * θ := by
+        calc x * (θ / s) * (x * (θ / s)) + y * (θ / s) * (y * (θ / s)) + z * (θ / s) * (z * (θ / s))
+            = (θ / s) * (θ / s) * (x * x + y * y + z * z) := by ring
+          _ = (θ / s) * (θ / s) * (s * s) := by rw [hs2]
+          _ = θ * θ := by field_simp
+      rw [this]; exact Real.sqrt_mul_self hθ0.le
+    simp only [Gen.C10.Quat.exp, C08.V3_length_eq tmin real_sqrt_spec, hlen, hs, hcos, sabs_of_nonneg hs0.le,
+      sabs_of_nonneg hθ0.le]
+    have hng : ¬ tmax * θ ≤ s := by
+      have : θ ≤ tmax * θ := by nlinarith
+      linarith
+    simp only [hng, ↓reduceIte]
+    have hk : θ / s * (s / θ) = 1 := by field_simp
+    split_ifs <;> (congr 1; congr 1 <;> (rw [mul_assoc, hk, mul_one]))
+
+/-- non-vacuity: q = (0; 1, 0, 0) (a half turn, real part 0) satisfies the guard with max = 3 -/
+example : UnitQ (⟨0, ⟨1, 0, 0⟩⟩ : Quat ℝ) ∧ (-1 : ℝ) < 0 ∧ Real.arccos 0 < 3 * Real.sin (Real.arccos 0) := by
+  refine ⟨by norm_num [UnitQ, normSq], by norm_num, ?_⟩
+  rw [Real.arccos_zero, Real.sin_pi_div_two]
+  linarith [Real.pi_le_four]
+
+/-- `q.setAxisAngle (q.axis (), q.angle ()) = q` for every unit quaternion (real functions; exactly `q`, not `-q`) -/
+theorem setAxisAngle_axis_angle (tmin : ℝ) (q0 q : Quat ℝ) (hq : UnitQ q) :
+    Gen.C10.Quat.setAxisAngle tmin Real.sqrt Real.sin Real.cos q0 (Gen.C10.Quat.axis tmin Real.sqrt q)
+      (Gen.C10.Quat.angle tmin Real.sqrt ratan2 q) = q := by
+  obtain ⟨r, ⟨x, y, z⟩⟩ := q
+  simp only [UnitQ, normSq] at hq
+  have h0 : 0 ≤ x * x + y * y + z * z := by
+    have := mul_self_nonneg x; have := mul_self_nonneg y; have := mul_self_nonneg z; linarith
+  have hll : Real.sqrt (x * x + y * y + z * z) * Real.sqrt (x * x + y * y + z * z) = x * x + y * y + z * z :=
+    Real.mul_self_sqrt h0
+  have hl0 : 0 ≤ Real.sqrt (x * x + y * y + z * z) := Real.sqrt_nonneg _
+  simp only [Gen.C10.Quat.setAxisAngle, Gen.C10.Quat.axis, Gen.C10.Quat.angle, C08.V3_length_eq tmin real_sqrt_spec, ratan2]
+  generalize Real.sqrt (x * x + y * y + z * z) = l at hll hl0
+  have hnorm : ‖(⟨r, l⟩ : ℂ)‖ = 1 := by
+    rw [Complex.norm_def, Complex.normSq_apply]
+    have : r * r + l * l = 1 := by linarith
+    simp only [this, Real.sqrt_one]
+  have hne : (⟨r, l⟩ : ℂ) ≠ 0 := by
+    intro h; rw [h] at hnorm; simp at hnorm
+  have hcos : Real.cos (Complex.arg ⟨r, l⟩) = r := by
+    rw [Complex.cos_arg hne, hnorm]; simp
+  have hsin : Real.sin (Complex.arg ⟨r, l⟩) = l := by
+    rw [Complex.sin_arg, hnorm]; simp
+  have hhalf : 2 * Complex.arg ⟨r, l⟩ / 2 = Complex.arg ⟨r, l⟩ := by ring
+  rw [hhalf, hcos, hsin]
+  by_cases hl : l = 0
+  · subst hl
+    have hx : x = 0 := mul_self_eq_zero.mp (by nlinarith [mul_self_nonneg x, mul_self_nonneg y, mul_self_nonneg z])
+    have hy : y = 0 := mul_self_eq_zero.mp (by nlinarith [mul_self_nonneg x, mul_self_nonneg y, mul_self_nonneg z])
+    have hz : z = 0 := mul_self_eq_zero.mp (by nlinarith [mul_self_nonneg x, mul_self_nonneg y, mul_self_nonneg z])
+    subst hx hy hz
+    simp
+  · simp only [hl, ↓reduceIte]
+    have h1 : x / l * (x / l) + y / l * (y / l) + z / l * (z / l) = 1 := by
+      field_simp; linarith
+    simp only [h1, Real.sqrt_one, one_ne_zero, ↓reduceIte, div_one]
+    congr 1; congr 1 <;> field_simp
+
+example : UnitQ (⟨-3/5, ⟨0, 4/5, 0⟩⟩ : Quat ℝ) := by norm_num [UnitQ, normSq]
+
+/-! ## `setRotation (from, to)` / `rotationMatrix (from, to)`: a unit rotation carrying from/‖from‖ onto to/‖to‖
+
+Stated about the MODULAR extraction `Gen.C10.Quat.setRotationMod` (harness/sym/sym_c10c.cpp: the real
+`Quat::setRotation` with `Vec3::normalized` and the private `Quat::setRotationInternal` as opaque calls of their own
+extracted definitions `Gen.C10.V3.normalized`, `Gen.C10.Quat.setRotationInternal`; 13 paths).  The flat 115-path tree
+`Gen.C10.Quat.setRotation` is extracted from the same function and both are validated bitwise against the real code on
+every run.  All three paths are covered: f0·t0 ≥ 0 (one step), split at the halfway vector (two steps, which commute
+because both axes are parallel to f0 × t0), and the antipodal fallback, taken when |f0 + t0| ≤ 8 ε (half turn about an
+axis orthogonal to f0; the smallest-component choice guarantees a non-zero cross product). -/
+
+section setRotation
+variable {α : Type} [Field α] [LinearOrder α] [IsStrictOrderedRing α]
+
+/-- **setRotation (from, to)** on the modular extraction, all three paths.
+With f0 = from.normalized (), t0 = to.normalized () (unit because from, to ≠ 0) the result r is a unit quaternion;
+it carries f0 onto t0 whenever the main path (f0·t0 ≥ 0) or the split path (|f0 + t0|² > (8 ε)²) is taken; on the
+antipodal fallback (|f0 + t0|² ≤ (8 ε)²) it carries f0 onto −f0 (which is t0 when the vectors are exactly opposite,
+and within 8 ε of t0 otherwise). -/
+theorem setRotationMod_spec (tmin teps : α) {sqrt : α → α} (hsqrt : SqrtSpec sqrt) (q0 : Quat α) (vfrom vto : V3 α)
+    (hfrom : vfrom ≠ ⟨0, 0, 0⟩) (hto : vto ≠ ⟨0, 0, 0⟩) :
+    let f0 := Gen.C10.V3.normalized tmin sqrt vfrom
+    let t0 := Gen.C10.V3.normalized tmin sqrt vto
+    let r := Gen.C10.Quat.setRotationMod tmin teps sqrt q0 vfrom vto
+    UnitV f0 ∧ UnitV t0 ∧ UnitQ r ∧
+    ((0 ≤ f0.x * t0.x + f0.y * t0.y + f0.z * t0.z ∨
+      (8 * teps) * (8 * teps) < (f0.x + t0.x) * (f0.x + t0.x) + (f0.y + t0.y) * (f0.y + t0.y) + (f0.z + t0.z) * (f0.z + t0.z)) →
+        Gen.C10.Quat.rotateVector r f0 = t0) ∧
+    (¬ (0 ≤ f0.x * t0.x + f0.y * t0.y + f0.z * t0.z) →
+     ¬ ((8 * teps) * (8 * teps) < (f0.x + t0.x) * (f0.x + t0.x) + (f0.y + t0.y) * (f0.y + t0.y) + (f0.z + t0.z) * (f0.z + t0.z)) →
+        Gen.C10.Quat.rotateVector r f0 = ⟨-f0.x, -f0.y, -f0.z⟩) := by
+  obtain ⟨a, b, c⟩ := vfrom
+  obtain ⟨d, e, g⟩ := vto
+  have hF := (V3_normalized_of_ne_zero tmin hsqrt _ hfrom).2
+  have hT := (V3_normalized_of_ne_zero tmin hsqrt _ hto).2
+  intro f0 t0 r
+  simp only [f0, t0, r, Gen.C10.Quat.setRotationMod]
+  generalize Gen.C10.V3.normalized tmin sqrt ⟨a, b, c⟩ = F at hF ⊢
+  generalize Gen.C10.V3.normalized tmin sqrt ⟨d, e, g⟩ = T at hT ⊢
+  obtain ⟨fx, fy, fz⟩ := F
+  obtain ⟨tx, ty, tz⟩ := T
+  simp only
+  refine ⟨hF, hT, ?_⟩
+  have hsum := sum_len2 ⟨fx, fy, fz⟩ ⟨tx, ty, tz⟩ hF hT
+  simp only at hsum
+  by_cases h1 : 0 ≤ fx * tx + fy * ty + fz * tz
+  · -- main path
+    simp only [h1, ↓reduceIte, true_or, not_true_eq_false, forall_const, IsEmpty.forall_iff, and_true]
+    have hs := sum_ne_zero ⟨fx, fy, fz⟩ ⟨tx, ty, tz⟩ hF hT (by simp only; linarith)
+    obtain ⟨u, _, rv, _⟩ := sri_spec tmin hsqrt ⟨fx, fy, fz⟩ ⟨tx, ty, tz⟩ hF hT hs
+    exact ⟨u, rv⟩
+  · by_cases h2 : (8 * teps) * (8 * teps) < (fx + tx) * (fx + tx) + (fy + ty) * (fy + ty) + (fz + tz) * (fz + tz)
+    · -- split at the halfway vector
+      have hc : -1 < fx * tx + fy * ty + fz * tz := by
+        have := mul_self_nonneg (8 * teps); linarith
+      obtain ⟨hH, hu, hr⟩ := split_spec tmin hsqrt ⟨fx, fy, fz⟩ ⟨tx, ty, tz⟩ hF hT hc
+      simp only at hH hu hr
+      have hne : ¬ ((Gen.C10.V3.normalized tmin sqrt ⟨fx + tx, fy + ty, fz + tz⟩).x * (Gen.C10.V3.normalized tmin sqrt ⟨fx + tx, fy + ty, fz + tz⟩).x +
+          (Gen.C10.V3.normalized tmin sqrt ⟨fx + tx, fy + ty, fz + tz⟩).y * (Gen.C10.V3.normalized tmin sqrt ⟨fx + tx, fy + ty, fz + tz⟩).y +
+          (Gen.C10.V3.normalized tmin sqrt ⟨fx + tx, fy + ty, fz + tz⟩).z * (Gen.C10.V3.normalized tmin sqrt ⟨fx + tx, fy + ty, fz + tz⟩).z = 0) := by
+        simp only [UnitV] at hH; rw [hH]; exact one_ne_zero
+      simp only [h1, h2, hne, ↓reduceIte, false_or, true_implies, not_true_eq_false, not_false_eq_true, forall_const,
+        IsEmpty.forall_iff, and_true]
+      exact ⟨hu, hr⟩
+    · -- antipodal fallback
+      have h0 : ((0 : α) * 0 + 0 * 0 + 0 * 0 = 0) := by ring
+      simp only [h1, h2, h0, ↓reduceIte, false_or, not_false_eq_true, forall_const, false_implies, true_and]
+      exact fallback_leaves tmin hsqrt fx fy fz hF
+
+/-- in every case the image of f0 is within `8 ε` of t0 (squared distance ≤ (8 ε)²), and exactly t0 off the fallback -/
+theorem setRotationMod_carries (tmin teps : α) {sqrt : α → α} (hsqrt : SqrtSpec sqrt) (q0 : Quat α) (vfrom vto : V3 α)
+    (hfrom : vfrom ≠ ⟨0, 0, 0⟩) (hto : vto ≠ ⟨0, 0, 0⟩) :
+    let f0 := Gen.C10.V3.normalized tmin sqrt vfrom
+    let t0 := Gen.C10.V3.normalized tmin sqrt vto
+    let p := Gen.C10.Quat.rotateVector (Gen.C10.Quat.setRotationMod tmin teps sqrt q0 vfrom vto) f0
+    (p.x - t0.x) * (p.x - t0.x) + (p.y - t0.y) * (p.y - t0.y) + (p.z - t0.z) * (p.z - t0.z) ≤ (8 * teps) * (8 * teps) := by
+  obtain ⟨_, _, _, h1, h2⟩ := setRotationMod_spec tmin teps hsqrt q0 vfrom vto hfrom hto
+  intro f0 t0 p
+  by_cases hc : (0 ≤ f0.x * t0.x + f0.y * t0.y + f0.z * t0.z ∨
+      (8 * teps) * (8 * teps) < (f0.x + t0.x) * (f0.x + t0.x) + (f0.y + t0.y) * (f0.y + t0.y) + (f0.z + t0.z) * (f0.z + t0.z))
+  · have : p = t0 := h1 hc
+    rw [this]; simp only [sub_self, mul_zero, add_zero]; exact mul_self_nonneg _
+  · rw [not_or] at hc
+    have : p = ⟨-f0.x, -f0.y, -f0.z⟩ := h2 hc.1 hc.2
+    rw [this]; simp only
+    have := not_lt.mp hc.2
+    calc (-f0.x - t0.x) * (-f0.x - t0.x) + (-f0.y - t0.y) * (-f0.y - t0.y) + (-f0.z - t0.z) * (-f0.z - t0.z)
+        = (f0.x + t0.x) * (f0.x + t0.x) + (f0.y + t0.y) * (f0.y + t0.y) + (f0.z + t0.z) * (f0.z + t0.z) := by ring
+      _ ≤ _ := this
+
+/-- `rotationMatrix (from, to) = setRotation (from, to) . toMatrix44 ()` -/
+theorem rotationMatrixMod_eq (tmin teps : α) (sqrt : α → α) (q0 : Quat α) (vfrom vto : V3 α) :
+    Gen.C10.rotationMatrixMod tmin teps sqrt vfrom vto =
+      Gen.C10.Quat.toMatrix44 (Gen.C10.Quat.setRotationMod tmin teps sqrt q0 vfrom vto) := by
+  simp only [Gen.C10.rotationMatrixMod, Gen.C10.Quat.setRotationMod, apply_ite Gen.C10.Quat.toMatrix44,
+    Gen.C10.Quat.toMatrix44]
+  repeat' (split_ifs with hc <;> simp only [hc, ↓reduceIte])
+
+end setRotation
+
+/-- non-vacuity (ℝ): from = (1,1,0), to = (-3,-3,0) — the pair on which the unpatched code returned the zero quaternion -/
+example : (⟨1, 1, 0⟩ : V3 ℝ) ≠ ⟨0, 0, 0⟩ ∧ (⟨-3, -3, 0⟩ : V3 ℝ) ≠ ⟨0, 0, 0⟩ := by
+  constructor <;> (intro h; have := congrArg V3.x h; norm_num at this)
 
 end ImathVerif.C10
